@@ -80,7 +80,7 @@ func ForSpectrum2[T, A, B any](attr ...string) (
 	if len(attr) == 0 {
 		seq = hseq.New2[T, A, B]()
 	} else {
-		seq = hseq.New[T](attr[0:2]...)
+		seq = hseq.New[T](names(attr, 2)...)
 	}
 
 	return hseq.FMap2(seq,
@@ -100,7 +100,7 @@ func ForSpectrum3[T, A, B, C any](attr ...string) (
 	if len(attr) == 0 {
 		seq = hseq.New3[T, A, B, C]()
 	} else {
-		seq = hseq.New[T](attr[0:3]...)
+		seq = hseq.New[T](names(attr, 3)...)
 	}
 
 	return hseq.FMap3(seq,
@@ -122,7 +122,7 @@ func ForSpectrum4[T, A, B, C, D any](attr ...string) (
 	if len(attr) == 0 {
 		seq = hseq.New4[T, A, B, C, D]()
 	} else {
-		seq = hseq.New[T](attr[0:4]...)
+		seq = hseq.New[T](names(attr, 4)...)
 	}
 
 	return hseq.FMap4(seq,
@@ -146,7 +146,7 @@ func ForSpectrum5[T, A, B, C, D, E any](attr ...string) (
 	if len(attr) == 0 {
 		seq = hseq.New5[T, A, B, C, D, E]()
 	} else {
-		seq = hseq.New[T](attr[0:5]...)
+		seq = hseq.New[T](names(attr, 5)...)
 	}
 
 	return hseq.FMap5(seq,
@@ -172,7 +172,7 @@ func ForSpectrum6[T, A, B, C, D, E, F any](attr ...string) (
 	if len(attr) == 0 {
 		seq = hseq.New6[T, A, B, C, D, E, F]()
 	} else {
-		seq = hseq.New[T](attr[0:6]...)
+		seq = hseq.New[T](names(attr, 6)...)
 	}
 
 	return hseq.FMap6(seq,
@@ -200,7 +200,7 @@ func ForSpectrum7[T, A, B, C, D, E, F, G any](attr ...string) (
 	if len(attr) == 0 {
 		seq = hseq.New7[T, A, B, C, D, E, F, G]()
 	} else {
-		seq = hseq.New[T](attr[0:7]...)
+		seq = hseq.New[T](names(attr, 7)...)
 	}
 
 	return hseq.FMap7(seq,
@@ -230,7 +230,7 @@ func ForSpectrum8[T, A, B, C, D, E, F, G, H any](attr ...string) (
 	if len(attr) == 0 {
 		seq = hseq.New8[T, A, B, C, D, E, F, G, H]()
 	} else {
-		seq = hseq.New[T](attr[0:8]...)
+		seq = hseq.New[T](names(attr, 8)...)
 	}
 
 	return hseq.FMap8(seq,
@@ -262,7 +262,7 @@ func ForSpectrum9[T, A, B, C, D, E, F, G, H, I any](attr ...string) (
 	if len(attr) == 0 {
 		seq = hseq.New9[T, A, B, C, D, E, F, G, H, I]()
 	} else {
-		seq = hseq.New[T](attr[0:9]...)
+		seq = hseq.New[T](names(attr, 9)...)
 	}
 
 	return hseq.FMap9(seq,
